@@ -19,6 +19,7 @@ import Mfi.Lemmas.AccL
 import Mfi.Lemmas.ConstL
 import Mfi.Props.C08
 import Mfi.Props.C03
+import Mfi.Lemmas.WorldL
 
 namespace Mfi.Props.C19
 open Mfi Mfi.Fx Mfi.Bank Mfi.Gen
@@ -653,5 +654,41 @@ theorem emissions_funding_arrives {m : Mfi.Token.Mint} {epoch post pre f : Int} 
     (hm : ∀ c, m = .t22fee c → Mfi.Props.C03.FeeCfgOk c)
     (h : Mfi.Token.mintPre m epoch post = some pre) (hf : Mfi.Token.mintFee m epoch pre = some f) : post ≤ pre - f :=
   Mfi.Props.C03.mint_prefee_covers hp hm h hf
+
+section whole_instructions
+open Mfi Mfi.World Mfi.Gen Mfi.Gen.Acc
+
+/-! ### the whole withdrawal of emissions (Mfi/Model/World.lean: `World.withdrawEmissions`) -/
+
+/-- **world_withdraw_emissions_spec**: `lending_account_withdraw_emissions` goes through only in a group that is not paused,
+    for the account's authority (or the group admin of a frozen account) — there is no receivership path —, on an account and a
+    bank of that group, with the BANK'S OWN emissions mint, on an account that is not disabled; what leaves the emissions vault is
+    exactly the whole-token part of `settle_emissions` of the position at the current time (the claim up to now credited first,
+    the fraction kept on the position), the bank's remaining pool falls by what was credited, and nothing else of the account
+    changes (no other slot, no re-sort). -/
+theorem world_withdraw_emissions_spec {c : Ctx} {o : Out} (h : World.withdrawEmissions c = .ok o) :
+    c.g.paused = false ∧ c.a.group = c.g.key ∧ c.b.group = c.g.key ∧ c.b.emissionsMint = c.emisMint ∧
+    Auth.notFrozenForAuthority (acctView c.a.authority c.a.flags) c.signer = true ∧
+    Auth.isSignerAuthorized (acctView c.a.authority c.a.flags) c.g.admin c.signer false = true ∧
+    flag c ACCOUNT_DISABLED = false ∧
+    ∃ i s x', findSlot c = .ok (i, s) ∧ Bank.settleEmissions c.b.books (toBal s) c.now = .ok (o.books, x', o.tokens) ∧
+      o.slots = c.a.slots.set i (ofBal c.b.key x') := by
+  unfold World.withdrawEmissions at h
+  obtain ⟨_, hc, h⟩ := Res.bind_ok h
+  obtain ⟨_, hf, h⟩ := Res.bind_ok h
+  obtain ⟨⟨i, s⟩, hfs, h⟩ := Res.bind_ok h
+  dsimp only at h
+  obtain ⟨⟨b', x', amt⟩, hset, h⟩ := Res.bind_ok h
+  injection h with h
+  subst h
+  have hc' := runChecks_ok hc
+  simp only [checks, List.forall_mem_cons, List.not_mem_nil, false_imp_iff, implies_true, and_true] at hc'
+  simp [evalChk, Ctx.env, flBit, flagsOf, AccV.key] at hc'
+  obtain ⟨c1, c2, c3, c4, c5, c6, _⟩ := hc'
+  have hf' := Bank.chk_ok hf
+  simp only [Bool.not_eq_true'] at hf'
+  exact ⟨c1, c2, c5, c6, c3, c4, hf', i, s, x', hfs, hset, rfl⟩
+
+end whole_instructions
 
 end Mfi.Props.C19
